@@ -362,6 +362,10 @@ func (p *Prog) targetsFor(prop string) []target {
 		if p.cs.Specs[key].Inline {
 			continue // verified inside each caller, with the caller's knowledge of its arguments
 		}
+		if p.cs.Specs[key].ThoroughOnly && p.tier != "thorough" {
+			p.notes[key[strings.Index(key, "::")+2:]+": verified in the thorough tier only"] = true
+			continue
+		}
 		for _, pr := range p.funcProps(t.pkg, t.ref) {
 			if pr == prop {
 				set[t] = true
